@@ -81,6 +81,7 @@ RULE = ('operation histories over {R0,R1,R2,P,D,C,M0..M4,G0..G2} from 8 '
 ASSUMPTIONS = ['namespace objects are rebuilt for every replay so that '
                'histories do not alias data']
 CASE_CPU_SECONDS = 900.0
+CASE_CPU_SECONDS_QUICK = 60.0
 
 SOURCES = [
     '<dtml-in seq sort_expr="sk"><dtml-var k><dtml-var j>,</dtml-in>|'
